@@ -16,6 +16,7 @@ DIST_DEFS = {
     "G": (("t",), "Perm(self.seed + self.epoch, 0, n, (t % n) // R)"),
 }
 DIST_ITER = dict(
+    merge=False,
     target=f"{FD}::DistributedSampler.__iter__",
     self={"dataset": DATASET, "num_repeats": INT, "shuffle": BOOL, "seed": INT, "epoch": INT, "drop_last": BOOL,
           "total_size": INT, "num_samples": INT, "rank": INT, "num_replicas": INT},
@@ -32,8 +33,24 @@ DIST_ITER = dict(
         1: dict(anchor="yield from indices", asserts=[
             # every rank's stream has exactly len(sampler) entries ...
             "len(value) == self.num_samples",
-            # ... and is the rank-strided slice of the one global draw
-            "forall(lambda k: implies(0 <= k and k < len(value), value[k] == G(self.rank + k * W)))",
+            H("implies(self.drop_last, self.total_size <= n)",
+              "self.num_samples == (cdiv(n - W, W) if (self.drop_last and n % W != 0) else cdiv(n, W))",
+              "self.total_size == self.num_samples * W", "W >= 1", "n >= 0"),
+            H("implies(not self.drop_last, self.total_size >= n)",
+              "self.num_samples == (cdiv(n - W, W) if (self.drop_last and n % W != 0) else cdiv(n, W))",
+              "self.total_size == self.num_samples * W", "W >= 1", "n >= 0"),
+            # ... and is the rank-strided slice of the one global draw (proved for an arbitrary position k)
+            {"forall": "k", "range": "0 <= k and k < len(value)", "asserts": [
+                H("self.rank + k * W < self.total_size and self.rank + k * W >= 0", "0 <= k and k < self.num_samples",
+                  "0 <= self.rank and self.rank < W", "self.total_size == self.num_samples * W", "W >= 1"),
+                H("implies(n > 0 and self.rank + k * W < n, (self.rank + k * W) % n == self.rank + k * W)",
+                  "self.rank + k * W >= 0"),
+                H("implies(n > 0 and n <= self.rank + k * W and self.rank + k * W < 2 * n, "
+                  "(self.rank + k * W) % n == self.rank + k * W - n)", "self.rank + k * W >= 0"),
+                H("implies(n > 0 and self.rank + k * W >= n, (self.rank + k * W - n) % n == (self.rank + k * W) % n)",
+                  "self.rank + k * W >= 0"),
+                "value[k] == G(self.rank + k * W)",
+            ]},
         ]),
     },
 )
